@@ -874,6 +874,7 @@ class Sim:
         self.shape = []
         self.step_no = 0
         self.d_new = set()
+        self.sid_seen = {}
         self.warm = {}  # (node id, string) -> step when a memo layer was seeded
         self.pre_edit_warm = set()
         self.flags = {"edit_ok": False, "stale_opportunity": False, "nodes_touched": set(),
@@ -1379,6 +1380,23 @@ class Sim:
         target = None
         if k in rw.EDITS:
             target = w.node(op).id
+        # the memoised registry id (public unit_system_id, feeds hash(Unit)) of EVERY registry must describe that
+        # registry's own table - also when it was (re)filled by a call made through another registry.  The digest is
+        # recomputed only when the memo's value changed since it was last looked at.
+        for n in w.nodes:
+            for hi, h in enumerate(n.handles):
+                sid = getattr(h, "_unit_system_id", None)
+                if sid is None or self.sid_seen.get((n.id, hi)) == sid:
+                    continue
+                self.sid_seen[(n.id, hi)] = sid
+                if k in rw.EDITS and n.id == target:
+                    continue  # judged by do_edit (edited-handle / other-handle signatures)
+                if sid != table_digest(h.lut):
+                    self.violate("stale-registry-id", ["C12", "C13"],
+                                 {"op": op, "node": n.id, "handle": hi,
+                                  "note": "unit_system_id of this registry is not the digest of its own table: it was "
+                                          "memoised from another table (hash(Unit) then differs from a fresh registry "
+                                          "with the same contents)"}, ["memo-of-another-table"])
         # I3 identities
         luts = {}
         unyt, lt, dims, uo, ur, us = rw._U()
